@@ -93,7 +93,8 @@ def known_findings():
     checks/C*.findings.jsonl (their source).  Never written at run time."""
     import glob
     out, seen = [], set()
-    paths = [os.path.join(ROOT, "KNOWN_FINDINGS.jsonl")] + sorted(glob.glob(os.path.join(ROOT, "checks", "C*.findings.jsonl")))
+    # the per-property source files take precedence over the assembled file
+    paths = sorted(glob.glob(os.path.join(ROOT, "checks", "C*.findings.jsonl"))) + [os.path.join(ROOT, "KNOWN_FINDINGS.jsonl")]
     for path in paths:
         if not os.path.exists(path):
             continue
@@ -104,7 +105,7 @@ def known_findings():
                     k = json.loads(line)
                 except ValueError:
                     continue
-                key = (k.get("property"), k.get("class"), k.get("status", "known"))
+                key = (k.get("property"), k.get("class"))
                 if key not in seen:
                     seen.add(key)
                     out.append(k)
